@@ -2,7 +2,7 @@
 # usage: seedverify.sh <Cnn> <k>   -- confirm a seeded change in a scratch worktree of /repo:
 #   (1) it applies to current HEAD, (2) the module builds and the unedited test suite passes with it,
 #   (3) its demonstration fails with the change and passes without it. Prints one summary line.
-id=$1; k=$2; src=/tmp/seedout/$id/m$k
+id=$1; k=$2; src=${SEEDOUT:-/tmp/seedout}/$id/m$k
 export GOFLAGS=-mod=mod GOPROXY=off GOSUMDB=off GOTOOLCHAIN=local; unset GOWORK
 wt=/tmp/sv_wt_${id}_$k
 rm -rf $wt; git -C /repo worktree add -q --detach $wt HEAD || { echo "$id m$k WORKTREE-FAIL"; exit 1; }
